@@ -537,6 +537,12 @@ def m_C12(v):
                     out.append((i, f"C12 base winners {g['nrw']} + reserved {g['tg']} != configured {v.deploy['nrw']}"))
             if int(g["nrw"]) >= 2 ** 31 or int(g["tg"]) >= 2 ** 31:
                 out.append((i, "C12 counter wrapped around"))
+            if done(g) and g["op"] == "none" and not any(d.get("cl") == "1" for d in v.D[i][1].values()):
+                # (claims remove settled winners from the count: only before the first settlement) unused reserved tickets were re-drawn: the final count is min(configured, confirmed)
+                T, last = v.deploy["nrw"], int(g["last"])
+                if int(g["nrw"]) != min(T, last):
+                    out.append((i, f"C12 after the distribution {g['nrw']} tickets win, min(configured {T}, confirmed {last}) expected: "
+                                   f"reserved tickets were lost or over-used"))
         if v.kind[i] == "call" and v.R[i]["st"] == "panic" and v.call[i]["ep"] in ("blacklist", "unblacklist", "refundUsers", "addTicketsV1", "addTicketsV2"):
             # the only other checked-arithmetic site these endpoints can reach is the tickets view of an
             # empty (zero-size) range, which the dump shows as tix=panic: not reserve accounting
